@@ -1053,7 +1053,7 @@ def box_new(m, cfg, f, args, t):
 
 def _pure(label):
     def h(m, cfg, f, args, t):
-        return Atom('%s(%s)' % (label, ', '.join(repr(a)[:40] for a in args)))
+        return Atom('%s(%s)' % (label, ', '.join(repr(a)[:(400 if '::new' in label or label in ('to_vec', 'String::from') else 40)] for a in args)))
     return h
 
 
